@@ -72,6 +72,16 @@ def judged_bg(pair, b):
 def spelled_pair_case(draw, pair_strategy, translucent_share=8, kinds=None):
     """A full case dict: constructed (text,bg) x spelling x settings."""
     text, bg, meta = draw(pair_strategy)
+    # the #rgb and keyword spellings only exist for few colours: now and then snap the drawn colours onto them
+    snap = draw(st.integers(0, 11))
+    if snap == 0:
+        text = tuple(int(round(c / 17.0)) * 17 for c in text)
+    elif snap == 1:
+        text = gc.nearest_keyword(text)
+    elif snap == 2:
+        bg = tuple(int(round(c / 17.0)) * 17 for c in bg)
+    elif snap == 3:
+        bg = gc.nearest_keyword(bg)
     large, very, mode = draw(gc.settings3())
     k = draw(st.integers(0, 99))
     if k < translucent_share:
